@@ -758,28 +758,31 @@ class TypedTree(Tree):
         # TypedTrees can assume reasaonable defaults for key_map and value_map
         # (key_map is evaluated in base class from TypedTree.DEFAULT_KEY_MAP)
 
-        # print("value_map    ", value_map)
-        if value_map is True or isinstance(value_map, dict):
-            if value_map is True:
-                value_map = self.DEFAULT_VALUE_MAP.copy()
+        # Collect the distinct kinds and write the node list inside one critical
+        # section (the lock is re-entrant), otherwise another thread may add a
+        # node with a new kind in between.
+        with self:
+            if value_map is True or isinstance(value_map, dict):
+                if value_map is True:
+                    value_map = self.DEFAULT_VALUE_MAP.copy()
 
-            if "kind" not in value_map:
-                counter = Counter()
-                for n in self:
-                    counter[n.kind] += 1
-                value_map.update({"kind": list(counter.keys())})
-                # print("value_map -> ", value_map)
-        else:
-            assert value_map is False, value_map
+                if "kind" not in value_map:
+                    counter = Counter()
+                    for n in self:
+                        counter[n.kind] += 1
+                    value_map = dict(value_map)  # don't modify the caller's dict
+                    value_map.update({"kind": list(counter.keys())})
+            else:
+                assert value_map is False, value_map
 
-        return super().save(
-            target,
-            compression=compression,
-            mapper=mapper,
-            meta=meta,
-            key_map=key_map,
-            value_map=value_map,
-        )
+            return super().save(
+                target,
+                compression=compression,
+                mapper=mapper,
+                meta=meta,
+                key_map=key_map,
+                value_map=value_map,
+            )
 
     @classmethod
     def _from_list(
